@@ -334,4 +334,16 @@ example : (0 : Rat) ≤ ((exPass.range.map ibmWord).getD 2 ⟨false, 0⟩).mag :
 /-- a header spacing recorded with a negative sign: the axis still moves from 100 towards 99 -/
 example : (xSpec [⟨false, 100⟩, ⟨false, 99⟩, ⟨true, 1 / 2⟩] 3).map Fl.toRat = [100, 199 / 2, 99] := by decide +kernel
 
+/-! ## The handle position does not matter -/
+
+/-- **Position independence**: decoding through an open handle gives the answer for the file's bytes wherever the handle
+was positioned before the call (inside the header after `is_bit_file`, at the end after a size query or an earlier
+decode, …), because the walker rewinds first.  In particular decoding twice through one handle gives the same result. -/
+theorem read_position_independent (h : Handle) : readHandle h = readBIT h.bytes := by
+  simp [readHandle, readBIT, Handle.seek]
+
+example : readHandle ⟨encode [exPass], 360⟩ = .ok (expectedFrom 0 [exPass]) := by
+  rw [read_position_independent]
+  exact bit_roundtrip [exPass] (by intro p hp; simp at hp; subst hp; exact exPass_wf) (by decide +kernel)
+
 end TD.C13
